@@ -32,7 +32,14 @@ def _cases():
     from .vacuous import vacuous_rank_tests
     from .viewparam import merging_views_of_parameters
     fires = lambda rs: any((not r.get("ok", False)) if isinstance(r, dict) else True for r in rs)
+    from .dropped import discarded_results, vacuous_any_of_self_comparison
     return [
+        ("G42 vacuous any() of a comparison with the first entry", lambda f: bool(vacuous_any_of_self_comparison(f)), "f",
+         "def f(x):\n    return (x == x.flatten()[0]).any()\n",
+         "def f(x):\n    return (x == x.flatten()[0]).all()\n"),
+        ("G39 discarded out-of-place result", lambda f: bool(discarded_results(f)), "f",
+         "def f(x):\n    x.log_softmax(-1)\n    return x\n",
+         "def f(x):\n    x = x.log_softmax(-1)\n    return x\n"),
         ("G33 dead formal", lambda f: bool(dead_formals(f)), "f",
          "def f(x, pad_mode, value):\n    y = pad(x, (1, 1), pad_mode)\n    return y\n",
          "def f(x, pad_mode, value):\n    y = pad(x, (1, 1), pad_mode, value)\n    return y\n"),
